@@ -14,7 +14,9 @@ use crate::{
 #[derive(Debug, Clone, PartialEq, Eq)]
 pub enum FunctionReference {
     Foreign(CompactString),
-    Normal(CompactString),
+    /// Name of the function and the index of its bytecode chunk: a function value refers to
+    /// the definition that was current when the reference was created
+    Normal(CompactString, u16),
     // TODO: We can get rid of this variant once we implement closures:
     TzConversion(CompactString),
 }
@@ -23,7 +25,7 @@ impl std::fmt::Display for FunctionReference {
     fn fmt(&self, f: &mut std::fmt::Formatter<'_>) -> std::fmt::Result {
         match self {
             FunctionReference::Foreign(name) => write!(f, "<builtin function: {name}>"),
-            FunctionReference::Normal(name) => write!(f, "<function: {name}>"),
+            FunctionReference::Normal(name, _) => write!(f, "<function: {name}>"),
             FunctionReference::TzConversion(tz) => {
                 write!(f, "<builtin timezone conversion function: {tz}>")
             }
